@@ -18,6 +18,23 @@ pub fn run(seed: u64, count: usize, shards: usize, outdir: &str) {
         // assignment: random, with empty courses and ties
         let dense = r.chance(1, 2);
         let a: Vec<Option<usize>> = (0..np).map(|_| if r.chance(1, 6) { None } else if dense { Some(r.below(nc.min(3))) } else { Some(r.below(nc)) }).collect();
+        // every third instance with at least 10 participants: a course with factor 1.1 or 0.3 (binary32) holding exactly 10 people -- the product
+        // is 11.0 / 3.0 in binary32 but slightly above in double precision, so the rounded-up size depends on the arithmetic used
+        let mut inst = inst;
+        let mut a = a;
+        if np >= 10 && nc >= 1 && r.chance(1, 3) {
+            let c = r.below(nc);
+            inst.courses[c].fbits = (if r.chance(1, 2) { 1.1f32 } else { 0.3f32 }).to_bits();
+            inst.courses[c].obits = 0.0f32.to_bits();
+            for (p, x) in a.iter_mut().enumerate() {
+                if p < 10 {
+                    *x = Some(c);
+                } else if *x == Some(c) {
+                    *x = if nc > 1 { Some((c + 1) % nc) } else { None };
+                }
+            }
+            *hist.entry(String::from("binary32_critical_course")).or_insert(0) += 1;
+        }
         let (courses, _parts) = build(&inst);
         // effective sizes as the program computes them
         let mut sizes: Vec<usize> = Vec::new();
